@@ -64,7 +64,7 @@ func (*compiler).loadStructField
 // only under 0 <= i-1 < len.
 func (*compiler).evaluateAssignableOrReference [C06]
   // ASSUMED for callers (not proved here): the descriptor returned for an assignable of a primitive class is that class's descriptor
-  postassume 1 <= asgClassOf(ass) && asgClassOf(ass) <= 5 ==> result1 == descr(c, asgClassOf(ass))
+  postassume 1 <= asgClassOf(ass) && asgClassOf(ass) <= 5 ==> result1 == descr(c, asgClassOf(ass)) && result2 == nil
   at L1 before call createIfElse
   assume ir.den(zero) == bv64(0)
   ensures [C06] reached(L1) && bvsge(fieldDen(lhs, list_len_field_index), bv64(0)) ==>
@@ -176,6 +176,11 @@ func (*compiler).VisitTernaryExpr [C02]
 
 // --- assignment: a value of one numeric type assigned to a target of another numeric type (also through type aliases)
 //     is converted to the target's type before it is stored ---
+// TRUSTED frame: storing the value (claiming a temporary or deep-copying) emits IR only
+func (*compiler).claimOrCopy
+  trusted
+  modifies *
+
 func (*compiler).VisitAssignStmt [C02]
   cases tyClassOf(s.Rhs) in {1, 2, 3}
   cases asgClassOf(s.Var) in {1, 2, 3}
